@@ -15,6 +15,7 @@ use smartcore::api::Predictor;
 use smartcore::error::Failed;
 use smartcore::linalg::naive::dense_matrix::DenseMatrix;
 use smartcore::linalg::BaseMatrix;
+use smartcore::math::num::RealNumber;
 use smartcore::model_selection::{
     cross_val_predict, cross_validate, train_test_split, BaseKFold, KFold,
 };
@@ -42,6 +43,9 @@ pub struct Case {
     pub fail_at: Option<(usize, u8)>,
     pub tape: TapeSpec,
     pub kind: String,
+    /// run KFold / cross_val_predict / cross_validate on DenseMatrix<f32>
+    #[serde(default)]
+    pub f32m: bool,
 }
 
 pub struct C16;
@@ -64,36 +68,40 @@ fn cell(i: usize, j: usize) -> f64 {
         (i * 8 + j) as f64 + 0.5
     }
 }
-const FOLD_BASE: f64 = 1048576.0; // 2^20
+const FOLD_BASE: f64 = 4096.0; // 2^12: (fold+1)*4096 + id stays exact in f32 for n, k <= 300
 
-fn make_xy(n: usize, p: usize) -> (DenseMatrix<f64>, Vec<f64>) {
-    let mut v = Vec::with_capacity(n * p);
+fn make_xy<T: RealNumber>(n: usize, p: usize) -> (DenseMatrix<T>, Vec<T>) {
+    let mut v: Vec<T> = Vec::with_capacity(n * p);
     for i in 0..n {
         for j in 0..p {
-            v.push(cell(i, j));
+            v.push(T::from_f64(cell(i, j)).unwrap());
         }
     }
-    (DenseMatrix::from_array(n, p, &v), (0..n).map(g).collect())
+    (DenseMatrix::from_array(n, p, &v), (0..n).map(|i| T::from_f64(g(i)).unwrap()).collect())
+}
+
+fn f(v: impl RealNumber) -> f64 {
+    v.to_f64().unwrap_or(f64::NAN)
 }
 
 /// decode the row ids of a matrix and check that every row is an intact original row
-fn ids_of(x: &DenseMatrix<f64>) -> Result<Vec<usize>, String> {
+fn ids_of<T: RealNumber>(x: &DenseMatrix<T>) -> Result<Vec<usize>, String> {
     let (r, c) = x.shape();
     let mut out = Vec::with_capacity(r);
     for i in 0..r {
-        let idf = x.get(i, 0);
+        let idf = f(x.get(i, 0));
         if idf < 0.0 || idf.fract() != 0.0 {
             return Err(format!("row {} has id cell {}", i, idf));
         }
         let id = idf as usize;
         for j in 1..c {
-            if x.get(i, j) != cell(id, j) {
+            if f(x.get(i, j)) != cell(id, j) {
                 return Err(format!(
                     "row {} (id {}) column {} holds {} instead of {}",
                     i,
                     id,
                     j,
-                    x.get(i, j),
+                    f(x.get(i, j)),
                     cell(id, j)
                 ));
             }
@@ -103,10 +111,10 @@ fn ids_of(x: &DenseMatrix<f64>) -> Result<Vec<usize>, String> {
     Ok(out)
 }
 
-fn ids_of_y(y: &[f64]) -> Result<Vec<usize>, String> {
+fn ids_of_y<T: RealNumber>(y: &[T]) -> Result<Vec<usize>, String> {
     y.iter()
         .enumerate()
-        .map(|(i, v)| g_inv(*v).ok_or_else(|| format!("target {} holds {} (not a target of any row)", i, v)))
+        .map(|(i, v)| g_inv(f(*v)).ok_or_else(|| format!("target {} holds {} (not a target of any row)", i, f(*v))))
         .collect()
 }
 
@@ -135,7 +143,8 @@ impl Hist {
     }
 }
 
-struct Est {
+struct Est<T> {
+    _t: std::marker::PhantomData<T>,
     fold: usize,
     fit_ids: BTreeSet<usize>,
     hist: Rc<RefCell<Hist>>,
@@ -144,8 +153,8 @@ struct Est {
     allow_train_predict: bool,
 }
 
-impl Predictor<DenseMatrix<f64>, Vec<f64>> for Est {
-    fn predict(&self, x: &DenseMatrix<f64>) -> Result<Vec<f64>, Failed> {
+impl<T: RealNumber> Predictor<DenseMatrix<T>, Vec<T>> for Est<T> {
+    fn predict(&self, x: &DenseMatrix<T>) -> Result<Vec<T>, Failed> {
         let mut h = self.hist.borrow_mut();
         let call = {
             let mut c = self.predict_calls.borrow_mut();
@@ -188,7 +197,7 @@ impl Predictor<DenseMatrix<f64>, Vec<f64>> for Est {
         }
         Ok(ids
             .iter()
-            .map(|id| (self.fold as f64 + 1.0) * FOLD_BASE + *id as f64)
+            .map(|id| T::from_f64((self.fold as f64 + 1.0) * FOLD_BASE + *id as f64).unwrap())
             .collect())
     }
 }
@@ -202,12 +211,12 @@ fn decode_pred(v: f64) -> Option<(usize, usize)> {
     Some((f as usize - 1, id as usize))
 }
 
-fn fit_party(
+fn fit_party<T: RealNumber>(
     hist: &Rc<RefCell<Hist>>,
     fail_at: Option<(usize, u8)>,
     allow_train_predict: bool,
-) -> impl Fn(&DenseMatrix<f64>, &Vec<f64>, ()) -> Result<Est, Failed> + '_ {
-    move |x: &DenseMatrix<f64>, y: &Vec<f64>, _p: ()| {
+) -> impl Fn(&DenseMatrix<T>, &Vec<T>, ()) -> Result<Est<T>, Failed> + '_ {
+    move |x: &DenseMatrix<T>, y: &Vec<T>, _p: ()| {
         let mut h = hist.borrow_mut();
         let fold = h.fits;
         h.fits += 1;
@@ -244,6 +253,7 @@ fn fit_party(
             }
         }
         Ok(Est {
+            _t: std::marker::PhantomData,
             fold,
             fit_ids: idx.into_iter().collect(),
             hist: hist.clone(),
@@ -378,6 +388,7 @@ fn forced_small() -> &'static Small {
                             fail_at: None,
                             tape: TapeSpec::prng(1).with_prefix(words.clone()),
                             kind: "forced-permutation".into(),
+                            f32m: pi % 3 == 1,
                         });
                     }
                 }
@@ -394,6 +405,7 @@ fn forced_small() -> &'static Small {
                         fail_at: None,
                         tape: TapeSpec::prng(1).with_prefix(words.clone()),
                         kind: "forced-permutation".into(),
+                        f32m: false,
                     });
                 }
             }
@@ -447,10 +459,10 @@ fn structured_perm(n: usize, which: u64, r: &mut Xo) -> Vec<usize> {
 }
 
 impl C16 {
-    fn run_inner(&self, case: &Case, rep: &mut Report) {
+    fn run_inner<T: RealNumber>(&self, case: &Case, rep: &mut Report) {
         let n = case.n;
         let k = case.k;
-        let (x, y) = make_xy(n, case.p);
+        let (x, y) = make_xy::<T>(n, case.p);
         let guard = TapeGuard::install(&case.tape);
         let mut d = Digest::new();
         d.str(&format!("{:?}", case.op)).usize(n).usize(k).usize(case.p).u64(case.shuffle as u64);
@@ -486,24 +498,10 @@ impl C16 {
             Op::Split { test_size, f32m } => {
                 let ts = *test_size;
                 let n_test = ((n as f32) * ts) as usize;
+                let _ = f32m; // the element type is chosen by the dispatcher in run()
                 let res = guarded(|| -> Result<(Vec<usize>, Vec<usize>, Vec<usize>, Vec<usize>), String> {
-                    if *f32m {
-                        let xv: Vec<f32> = (0..n).flat_map(|i| (0..case.p).map(move |j| cell(i, j) as f32)).collect();
-                        let xf = DenseMatrix::from_array(n, case.p, &xv);
-                        let yf: Vec<f32> = (0..n).map(|i| g(i) as f32).collect();
-                        let (xtr, xte, ytr, yte) = train_test_split(&xf, &yf, ts, case.shuffle);
-                        let conv = |m: &DenseMatrix<f32>| {
-                            let (r, c) = m.shape();
-                            let v: Vec<f64> = (0..r).flat_map(|i| (0..c).map(move |j| (i, j))).map(|(i, j)| m.get(i, j) as f64).collect();
-                            DenseMatrix::from_array(r, c, &v)
-                        };
-                        let ytr: Vec<f64> = ytr.iter().map(|v| *v as f64).collect();
-                        let yte: Vec<f64> = yte.iter().map(|v| *v as f64).collect();
-                        Ok((ids_of(&conv(&xtr))?, ids_of(&conv(&xte))?, ids_of_y(&ytr)?, ids_of_y(&yte)?))
-                    } else {
-                        let (xtr, xte, ytr, yte) = train_test_split(&x, &y, ts, case.shuffle);
-                        Ok((ids_of(&xtr)?, ids_of(&xte)?, ids_of_y(&ytr)?, ids_of_y(&yte)?))
-                    }
+                    let (xtr, xte, ytr, yte) = train_test_split(&x, &y, ts, case.shuffle);
+                    Ok((ids_of(&xtr)?, ids_of(&xte)?, ids_of_y(&ytr)?, ids_of_y(&yte)?))
                 });
                 match res {
                     Err(msg) => rep.fail("panic", "train-test-split", format!("train_test_split(n={}, test_size={}) panicked: {}", n, ts, msg)),
@@ -549,19 +547,19 @@ impl C16 {
                 }
                 let res = guarded(|| {
                     if is_cv {
-                        let score = |a: &Vec<f64>, b: &Vec<f64>| -> f64 {
+                        let score = |a: &Vec<T>, b: &Vec<T>| -> T {
                             let mut h = hist.borrow_mut();
                             h.scores += 1;
                             let ret = h.scores as f64 + 0.5;
-                            h.events.push(Ev::Score { y_true: a.clone(), y_pred: b.clone(), ret });
-                            ret
+                            h.events.push(Ev::Score { y_true: a.iter().map(|v| f(*v)).collect(), y_pred: b.iter().map(|v| f(*v)).collect(), ret });
+                            T::from_f64(ret).unwrap()
                         };
                         Out::Scores(
-                            cross_validate(fit_party(&hist, case.fail_at, true), &x, &y, (), cvk, score)
-                                .map(|r| (r.train_score, r.test_score)),
+                            cross_validate(fit_party::<T>(&hist, case.fail_at, true), &x, &y, (), cvk, score)
+                                .map(|r| (r.train_score.iter().map(|v| f(*v)).collect(), r.test_score.iter().map(|v| f(*v)).collect())),
                         )
                     } else {
-                        Out::Pred(cross_val_predict(fit_party(&hist, case.fail_at, false), &x, &y, (), cvk))
+                        Out::Pred(cross_val_predict(fit_party::<T>(&hist, case.fail_at, false), &x, &y, (), cvk).map(|v| v.iter().map(|z| f(*z)).collect()))
                     }
                 });
                 let h = hist.borrow();
@@ -816,7 +814,7 @@ impl Property for C16 {
             "noshuffle-exhaustive" => {
                 let (n, k) = noshuffle_pairs()[(index / 3) as usize];
                 let op = [Op::KFold, Op::CrossValPredict, Op::CrossValidate][(index % 3) as usize].clone();
-                Case { op, n, k, p: 1 + (index % 3) as usize, shuffle: false, fail_at: None, tape: TapeSpec::prng(tape_seed), kind: "noshuffle".into() }
+                Case { op, n, k, p: 1 + (index % 3) as usize, shuffle: false, fail_at: None, tape: TapeSpec::prng(tape_seed), kind: "noshuffle".into(), f32m: (n + k) % 4 == 0 }
             }
             "split-noshuffle" => {
                 let f32m = index % 2 == 1;
@@ -827,7 +825,7 @@ impl Property for C16 {
                 while ((n as f32) * ts) as usize == 0 {
                     n += 7;
                 }
-                Case { op: Op::Split { test_size: ts, f32m }, n, k: 2, p: 1 + (index % 4) as usize, shuffle: false, fail_at: None, tape: TapeSpec::prng(tape_seed), kind: "noshuffle".into() }
+                Case { op: Op::Split { test_size: ts, f32m }, n, k: 2, p: 1 + (index % 4) as usize, shuffle: false, fail_at: None, tape: TapeSpec::prng(tape_seed), kind: "noshuffle".into(), f32m: false }
             }
             "forced-perm-exhaustive" => forced_small().cases[index as usize].clone(),
             _ => {
@@ -852,7 +850,7 @@ impl Property for C16 {
                     5..=7 => Op::CrossValPredict,
                     _ => Op::CrossValidate,
                 };
-                let mut c = Case { op, n, k, p, shuffle: true, fail_at: None, tape: TapeSpec::prng(tape_seed), kind: "prng".into() };
+                let mut c = Case { op, n, k, p, shuffle: true, fail_at: None, tape: TapeSpec::prng(tape_seed), kind: "prng".into(), f32m: r.chance(0.25) };
                 match batch {
                     "prng-shuffle" => {}
                     "extreme-shuffle" => {
@@ -884,7 +882,12 @@ impl Property for C16 {
         let mut rep = Report::default();
         match guarded(|| {
             let mut r = Report::default();
-            self.run_inner(case, &mut r);
+            let single = case.f32m || matches!(case.op, Op::Split { f32m: true, .. });
+            if single {
+                self.run_inner::<f32>(case, &mut r);
+            } else {
+                self.run_inner::<f64>(case, &mut r);
+            }
             r
         }) {
             Ok(r) => rep = r,
@@ -946,6 +949,11 @@ impl Property for C16 {
             c.p = 1;
             push(c);
         }
+        if case.f32m {
+            let mut c = case.clone();
+            c.f32m = false;
+            push(c);
+        }
         if case.tape.extreme_pm > 0 {
             let mut c = case.clone();
             c.tape.extreme_pm = 0;
@@ -971,7 +979,7 @@ impl Property for C16 {
     fn sample(&self, case: &Case, report: &Report) -> Value {
         json!({
             "op": format!("{:?}", case.op), "n": case.n, "k": case.k, "p": case.p, "shuffle": case.shuffle,
-            "fail_at": case.fail_at, "kind": case.kind,
+            "fail_at": case.fail_at, "kind": case.kind, "f32": case.f32m,
             "tape_prefix_words": case.tape.prefix.len(), "tape_seed": case.tape.seed, "extreme_per_mille": case.tape.extreme_pm,
             "words_served": report.tape.len(),
             "first_words_served": report.tape.iter().take(8).collect::<Vec<_>>(),
